@@ -3,6 +3,7 @@ package c20
 
 import (
 	"bytes"
+	"context"
 	"crypto/tls"
 	"fmt"
 	"io"
@@ -53,6 +54,12 @@ type script struct {
 	// current net/http do) instead of asserting http.Flusher
 	flushRC  bool
 	plainTop bool // the top-level writer supports neither Hijack nor Flush
+	// cancelAtEnd: the request's context is done by the time the handler returns (a front layer's
+	// time budget ran out while the handler, slightly late, still answered completely)
+	cancelAtEnd bool
+	// rewriteReq: the handler rewrites attributes of the request it was handed (peer address
+	// from a trusted header, Host, credential headers) - its own business, nobody else's
+	rewriteReq bool
 }
 
 type outcome struct {
@@ -62,11 +69,18 @@ type outcome struct {
 	hijackErr     error
 	warm          int // warm-up invocations
 	flushAttempts int
-	flushErr      error // http.ResponseController.Flush failed
+	flushErr      error  // http.ResponseController.Flush failed
+	cancel        func() // ends the request's context
 }
 
 func (s *script) handler(o *outcome) http.Handler {
 	return http.HandlerFunc(func(w http.ResponseWriter, r *http.Request) {
+		if s.rewriteReq {
+			r.RemoteAddr = "203.0.113.77:4711"
+			r.Host = "internal.example"
+			r.Header.Del("Authorization")
+			r.Header.Set("X-Real-Ip", "203.0.113.77")
+		}
 		if st := r.Header.Get("X-Warm"); st == "abort" {
 			// an earlier exchange that broke off mid-body, the way a reverse proxy aborts when its
 			// backend connection dies
@@ -82,6 +96,9 @@ func (s *script) handler(o *outcome) http.Handler {
 			return
 		}
 		o.invoked++
+		if s.cancelAtEnd && o.cancel != nil {
+			defer o.cancel()
+		}
 		_, o.flusherOK = w.(http.Flusher)
 		_, o.hijackerOK = w.(http.Hijacker)
 		if s.hijack {
@@ -163,6 +180,8 @@ func genScript(t *rapid.T) *script {
 		}
 	}
 	s.flush = rapid.Bool().Draw(t, "flush")
+	s.cancelAtEnd = rapid.IntRange(0, 5).Draw(t, "contextDoneWhenHandlerReturns") == 0
+	s.rewriteReq = rapid.IntRange(0, 3).Draw(t, "handlerRewritesRequest") == 0
 	s.flushRC = rapid.Bool().Draw(t, "flushThroughResponseController")
 	s.emptyFirst = s.info == 0 && rapid.IntRange(0, 7).Draw(t, "emptyFirstWrite") == 0
 	if len(s.writes) > 0 && rapid.IntRange(0, 3).Draw(t, "trailers") == 0 {
@@ -516,6 +535,14 @@ func TestC20_Transparent(t *testing.T) {
 		for i := len(layers) - 1; i >= 0; i-- {
 			h = wrap(t, layers[i], h, false)
 		}
+		// ordinary exchanges before the measured one (the same handler, answering 200)
+		for i := rapid.IntRange(0, 3).Draw(t, "exchangesBefore"); i > 0; i-- {
+			wreq := newRequest(bodyLen)
+			wreq.Header.Set("X-Warm", "200")
+			if _, p := serve(h, sim.NewRecorder(), wreq, false); p != nil {
+				t.Fatalf("an ordinary exchange before the measured one came out of the stack %v as %v", layers, p)
+			}
+		}
 		for i := 0; i < abortedBefore; i++ {
 			wreq := newRequest(bodyLen)
 			wreq.Header.Set("X-Warm", "abort")
@@ -527,7 +554,13 @@ func TestC20_Transparent(t *testing.T) {
 		if presetCookie {
 			rec1.Header().Add("Set-Cookie", "outer=1; Path=/")
 		}
-		hij1, p1 := serve(h, rec1, newRequest(bodyLen), hijack, plain)
+		req1 := newRequest(bodyLen)
+		if s.cancelAtEnd {
+			ctx, cancel := context.WithCancel(req1.Context())
+			defer cancel()
+			req1, o1.cancel = req1.WithContext(ctx), cancel
+		}
+		hij1, p1 := serve(h, rec1, req1, hijack, plain)
 		desc := fmt.Sprintf("stack (outermost first) %v, handler %s, request body %d bytes, %d aborted exchanges before, connection limit %d, preset cookie %v", layers, s, bodyLen, abortedBefore, connLimit, presetCookie)
 		if p1 != nil {
 			t.Fatalf("the stack panicked: %v\n%s", p1, desc)
